@@ -793,7 +793,7 @@ fn gen_c09(o: &mut Out, cx: &mut Ctx, r: &mut Rng, th: bool) {
     }
     // ---- three keys from a universe on both sides of 0x8000, reduced states, random
     let uni: Vec<(u16, u16)> = vec![(1, 0), (1, 1), (5, 0xffff), (63, 2), (64, 2), (0x3fff, 7), (0x7fff, 0xffff), (0x8000, 0), (0x8000, 1), (0xffff, 0xffff), (0xffff, 0), (0, 0x4000), (9, 3)];
-    for n in 0..(if th { 60_000 } else { 6_000 }) {
+    for n in 0..(if th { 40_000 } else { 6_000 }) {
         let nk = 1 + r.below(4) as usize;
         let mut ks: Vec<(u16, u16)> = (0..nk).map(|_| *r.pick(&uni)).collect();
         ks.sort();
@@ -836,7 +836,7 @@ fn gen_c09(o: &mut Out, cx: &mut Ctx, r: &mut Rng, th: bool) {
     }
     // ---- random pairs up to the limits
     let plan: Vec<(usize, bool)> = if th {
-        (0..200).map(|n| (match n % 8 { 0 => 1024, 1 => 1023, 2 => 1100, 3 => r.below(1025) as usize, _ => r.below(200) as usize }, n % 8 == 4)).collect()
+        (0..64).map(|n| (match n % 8 { 0 => 1024, 1 => 1023, 2 => 1100, 3 => r.below(1025) as usize, _ => r.below(200) as usize }, n % 8 == 4)).collect()
     } else {
         vec![(1024, false), (90, true), (150, false), (40, false), (1100, false), (12, false)]
     };
@@ -993,6 +993,12 @@ fn obs_equal(o: &mut Out, id: &str, what: &str, s: &Snap, s2: &Snap, probes: &[(
     }
 }
 
+fn raw_of(s: &Snap) -> Option<RawSnap> {
+    let ints = snap_ints(s)?;
+    let mut r = RawSnap::empty();
+    r.read_from_ints(&mut libtw2_warn::Ignore, &ints).ok()?;
+    Some(r)
+}
 fn registry_of(s: &Snap) -> Option<Vec<ItemV>> {
     let ints = snap_ints(s)?;
     let mut r = RawSnap::empty();
@@ -1056,6 +1062,13 @@ fn oracle_c10(o: &mut Out, id: &str, ops: &[Op], fresh: Uuid) {
     }
     for (bi, base) in bases.iter().enumerate() {
         let mut d = Delta::new();
+        // K09 (an item keeps its key and changes its length) is outside C10's delta clause
+        // (on the raw keys: two builders may number the same UUID types differently)
+        let k09 = match (raw_of(base), raw_of(&s)) { (Some(x), Some(y)) => is_k09(&x, &y), _ => true };
+        if k09 {
+            o.count("after-delta base skipped (K09)");
+            continue;
+        }
         if guard(|| d.create(base, &s)).is_err() {
             o.check(false, "-", id, || "Delta::create panicked on builder-made snapshots of equal item sizes".into());
             continue;
@@ -1216,10 +1229,10 @@ fn gen_c10(o: &mut Out, r: &mut Rng, th: bool) {
         }
     }
     o.exhaustive("C10: every builder op list of length <= 3 over 6 ops (2 ordinal, 4 UUID-typed incl. a repeated type and a duplicate key)");
-    for n in 0..(if th { 3000 } else { 300 }) {
+    for n in 0..(if th { 2000 } else { 200 }) {
         let n_uuid = match n % 5 { 0 => 0, 1 => 1 + r.below(3) as usize, 2 => 40, _ => r.below(41) as usize };
         let n_ops = match n % 7 { 0 => r.below(5) as usize, 1 => 40 + r.below(60) as usize, _ => r.below(40) as usize };
-        let ops = gen_ops(r, n_ops, n_uuid, n % 10 == 0);
+        let ops = gen_ops(r, n_ops, n_uuid, n % 16 == 0);
         do_build(o, &ops, false, fresh);
     }
     // up to the limits: item count, byte size, many UUID types
@@ -1350,7 +1363,9 @@ fn snap_followups(o: &mut Out, h: &mut Hostile, r: &mut Rng, m: &mut Machine, fr
                 m.wi(1, 16384);
             }
         }
-        if h.pool.len() < 400 || r.chance(1, 20) {
+        if ints.len() > 600 {
+            // too big a partner for every later case
+        } else if h.pool.len() < 400 || r.chance(1, 20) {
             if h.pool.len() >= 400 {
                 let k = r.below(h.pool.len() as u64) as usize;
                 h.pool[k] = ints;
@@ -1518,7 +1533,12 @@ fn gen_c11(o: &mut Out, r: &mut Rng, th: bool) {
         do_hostile_snap(o, &mut h, r, b, None, fresh);
     }
     // ---- registry chains: ids that drive recycle's numbering to its ends (defect #10)
-    for (start, step, count) in [(0x4000u32, 255u32, 70usize), (0x4000, 255, 200), (0x4000, 1, 300), (0x7f00, 1, 256), (0x3f80, 100, 3), (0xfe00, 250, 3), (0x4000, 256, 4)] {
+    let chains: Vec<(u32, u32, usize)> = if th {
+        vec![(0x4000, 255, 70), (0x4000, 255, 200), (0x4000, 1, 300), (0x7f00, 1, 256), (0x3f80, 100, 3), (0xfe00, 250, 3), (0x4000, 256, 4)]
+    } else {
+        vec![(0x4000, 255, 70), (0x7fe0, 1, 32), (0x3f80, 100, 3), (0xfe00, 250, 3), (0x4000, 256, 4)]
+    };
+    for (start, step, count) in chains {
         let mut items: Vec<(i32, Vec<i32>)> = vec![];
         let mut id = start;
         for n in 0..count {
@@ -1527,7 +1547,7 @@ fn gen_c11(o: &mut Out, r: &mut Rng, th: bool) {
             id += step;
         }
         let top = (id - step).min(0xffff);
-        for last in [top, 0x7fff, 0x7ffe, 0xffff, 0xfffe] {
+        for last in (if th { vec![top, 0x7fff, 0x7ffe, 0xffff, 0xfffe] } else { vec![top, 0x7fff, 0xffff] }) {
             let mut it = items.clone();
             if !it.iter().any(|x| x.0 == key_of(0, last as u16)) {
                 it.push((key_of(0, last as u16), u(99)));
@@ -1582,13 +1602,15 @@ fn gen_c11(o: &mut Out, r: &mut Rng, th: bool) {
     do_hostile_snap(o, &mut h, r, &[0, i32::MAX], None, fresh);
     do_hostile_snap(o, &mut h, r, &[i32::MAX - 3, 0], None, fresh);
     do_hostile_snap(o, &mut h, r, &[i32::MAX - 3, i32::MAX], None, fresh);
-    for n in [1023usize, 1024, 1025, 2000] {
+    for n in (if th { vec![1023usize, 1024, 1025, 2000] } else { vec![1024usize, 1025] }) {
         let items: Vec<(i32, Vec<i32>)> = (0..n).map(|i| (key_of((i % 7) as u16 + 1, i as u16), vec![i as i32])).collect();
         do_hostile_snap(o, &mut h, r, &craft_snap(&items), None, fresh);
     }
-    for len in [16379usize, 16380, 16381] {
+    for len in (if th { vec![16379usize, 16380, 16381] } else { vec![16380usize, 16381] }) {
         do_hostile_snap(o, &mut h, r, &craft_snap(&[(key_of(3, 3), vec![1; len])]), None, fresh);
-        do_hostile_snap(o, &mut h, r, &craft_snap(&[(key_of(3, 3), vec![1; len / 2]), (key_of(3, 4), vec![-1; len - len / 2 - 2])]), None, fresh);
+        if th {
+            do_hostile_snap(o, &mut h, r, &craft_snap(&[(key_of(3, 3), vec![1; len / 2]), (key_of(3, 4), vec![-1; len - len / 2 - 2])]), None, fresh);
+        }
     }
     // ---- random words
     for _ in 0..(if th { 60_000 } else { 6_000 }) {
@@ -1651,8 +1673,10 @@ fn gen_c11(o: &mut Out, r: &mut Rng, th: bool) {
     }
     // too many items / too long through a delta
     let many: Vec<(i32, i32, Option<i32>, Vec<i32>)> = (0..1030).map(|i| (3, i, Some(1), vec![i])).collect();
-    do_hostile_delta(o, &mut h, r, &vec![], &craft_delta(&[], &many[..1019]), None);
-    do_hostile_delta(o, &mut h, r, &vec![], &craft_delta(&[], &many[..1020]), None);
+    if th {
+        do_hostile_delta(o, &mut h, r, &vec![], &craft_delta(&[], &many[..1019]), None);
+        do_hostile_delta(o, &mut h, r, &vec![], &craft_delta(&[], &many[..1020]), None);
+    }
     do_hostile_delta(o, &mut h, r, &vec![], &craft_delta(&[], &many), None);
     do_hostile_delta(o, &mut h, r, &vec![], &craft_delta(&[], &[(3, 3, Some(16360), vec![1; 16360])]), None);
     do_hostile_delta(o, &mut h, r, &vec![], &craft_delta(&[], &[(3, 3, Some(17000), vec![1; 17000])]), None);
